@@ -24,7 +24,20 @@ def main():
         return 2
     try:
         if a.replay:
-            return mod.replay(a.replay)
+            if hasattr(mod, "replay"):
+                return mod.replay(a.replay)
+            # generic replay: show the recorded case, re-run the check with the recorded seed/tier and
+            # report whether the same failing key shows up again
+            import json
+            v = json.load(open(a.replay))
+            print(json.dumps(v, indent=1)[:6000])
+            os.environ["VERIF_SEED"] = str(v.get("seed", 1))
+            rep = lib.Report(pid, v.get("tier", "quick"))
+            mod.run(rep, v.get("tier", "quick"))
+            rep.finish()
+            again = json.dumps(v.get("key"), sort_keys=True, default=str) in rep.viol_keys
+            print("REPLAY %s: %s" % (pid, "violation reproduced" if again else "not reproduced"))
+            return 1 if again else 0
         rep = lib.Report(pid, a.tier)
         mod.run(rep, a.tier)
         return rep.finish()
